@@ -150,6 +150,8 @@ def transcript_properties(script, clines):
     Returns a list of (op index, text)."""
     bad = []
     prev = None
+    vns = {}            # id -> {"nf", "f0", "held": set of handles it accepted, "unk": {handle: measured values}}
+    solved = {}         # unknown handle -> {frequency: value (x64) the last successful solve must have stored}
     for i, cl in enumerate(clines):
         d = parse_line(cl)
         if "op" not in d or d.get("freed") or "cals" not in d:
@@ -157,6 +159,46 @@ def transcript_properties(script, clines):
             continue
         op, args = d["op"], script[i].split()[1:] if i < len(script) else []
         cals, params = d["cals"], d["params"]
+        # --- per-vnacal_new_t bookkeeping taken from the script and the library's own answers
+        if op == "nalloc" and d["r"] == "ok":
+            vns[int(args[0])] = {"nf": int(args[3]), "f0": None, "held": set([0]), "unk": {}}
+        if op == "nfree" and d["r"] == "0":
+            vns.pop(int(args[0]), None)
+        if op == "setf" and d["r"] == "0" and int(args[0]) in vns:
+            vns[int(args[0])]["f0"] = int(args[1])
+        if op == "addstd" and int(args[0]) in vns:
+            v = vns[int(args[0])]
+            nh = int(args[1])
+            hs = [int(x) for x in args[2:2 + nh]]
+            if hs and all(h in v["held"] for h in hs) and d["r"] != "0":
+                bad.append((i, "vnacal_new_t %s already holds parameter(s) %s but refuses a standard that uses them "
+                               "(a handle must keep working in the vnacal_new_t that holds it)" % (args[0], hs)))
+            if d["r"] == "0":
+                v["held"] |= set(hs)
+                nums = [int(x) for x in args[3 + nh:]]
+                vals = [(nums[2 * k], nums[2 * k + 1]) for k in range(len(nums) // 2)]
+                for k, h in enumerate(hs):
+                    if h in params and params[h]["type"] in (3, 4) and h not in v["unk"] and nh in (1, 2):
+                        v["unk"][h] = vals[k * v["nf"]:(k + 1) * v["nf"]]
+        if op == "solve" and d["r"] == "0" and int(args[0]) in vns:
+            v = vns[int(args[0])]
+            if v["f0"] is not None:
+                for h, vals in v["unk"].items():
+                    if len(vals) == v["nf"]:
+                        solved[h] = {v["f0"] + k: vals[k] for k in range(v["nf"])}
+        if op in ("mks", "mkv", "mku", "mkc") and d["e"] == "-":
+            solved.pop(int(d["r"]), None)           # a re-used handle value is a new parameter
+        if op == "getv" and int(args[0]) in solved and int(args[0]) in params and not params[int(args[0])]["deleted"]:
+            h, f = int(args[0]), int(args[1])
+            if f in solved[h]:
+                want = solved[h][f]
+                ok = False
+                m = re.match(r"(~?)(-?[\d.eE+-]+),(~?)(-?[\d.eE+-]+)$", d["r"])
+                if m:
+                    ok = abs(float(m.group(2)) - want[0]) <= 1e-3 and abs(float(m.group(4)) - want[1]) <= 1e-3
+                if not ok:
+                    bad.append((i, "unknown parameter %d was solved to %s/64 at frequency %d but vnacal_get_parameter_value "
+                                   "returns %s" % (h, want, f, d["r"])))
         live = sorted(cals)
         if d["end"] != (max(live) + 1 if live else 0):
             bad.append((i, "get_calibration_end = %d but the highest live index is %s" % (d["end"], live[-1:] or "none")))
@@ -671,7 +713,172 @@ class Gen(object):
                      delcal=2, find=1, getcal=2, end=1, pset=0, pget=0, nfree=6),
     }
 
+    # -- profile "bigset": one (or two) vnacal_new_t holding 10..40 parameters whose indices collide modulo 8, 16
+    #    and 32 (the per-vnacal_new_t hash grows 8 -> 16 -> 32 -> 64 while they are added), then every held handle
+    #    is deleted and used again in the same vnacal_new_t (deleted-while-held must keep working there)
+    def generate_bigset(self):
+        rng = self.rng
+        nparams = rng.randrange(20, 44)
+        used = set([(0, 0), (64, 0), (-64, 0)])
+        for k in range(nparams):
+            r = rng.random()
+            if r < 0.8 or k < 4:
+                while True:
+                    v = (rng.randrange(-60, 61), rng.randrange(-60, 61))
+                    if v not in used:
+                        break
+                used.add(v)
+                self.made(self.do("mks " + vstr(v)), ("s", v))
+            elif r < 0.9:
+                fs = [1, 2, 3]
+                gs = [(rng.randrange(-60, 61), rng.randrange(-60, 61)) for _ in fs]
+                self.made(self.do("mkv 3 1 2 3 " + " ".join(vstr(g) for g in gs)), ("v", fs, gs))
+            else:
+                h = rng.choice([x for x in self.visible() if self.pinfo.get(x, ("?",))[0] == "s"])
+                self.made(self.do("mku %d" % h), ("u", h))
+            if rng.random() < 0.08 and len(self.visible()) > 6:
+                self.do("delp %d" % rng.choice([x for x in self.visible() if x >= 3]))     # holes: later handles reuse them
+        nvn = 1 if rng.random() < 0.7 else 2
+        held = {}
+        for i in range(nvn):
+            dim = 1 if rng.random() < 0.75 else 2
+            nf = rng.choice([1, 1, 2])
+            ty = rng.choice(VALID_TYPES if dim == 1 else [0, 1, 2, 3, 6, 8])
+            self.do("nalloc %d %d %d %d" % (i, ty, dim, nf))
+            self.do("setf %d 1" % i)
+            self.vn[i] = {"dim": dim, "ty": ty, "nf": nf, "fvalid": True, "f0": 1, "std": [], "unk": {}, "taint": False,
+                          "cal": False, "through": False}
+            held[i] = []
+        for i in range(nvn):
+            v = self.vn[i]
+            cand = [h for h in self.visible() if h >= 3 or rng.random() < 0.5]
+            rng.shuffle(cand)
+            # colliding pairs first, so that both are in the table before it grows
+            front = []
+            for mod in rng.sample([8, 16, 16, 32, 32], 3):
+                pairs = [(a, b) for a in cand for b in cand if a < b and (b - a) % mod == 0 and a not in front and b not in front]
+                if pairs:
+                    a, b = rng.choice(pairs)
+                    front += [a, b] if rng.random() < 0.5 else [b, a]
+            order = front + [h for h in cand if h not in front]
+            order = order[: rng.randrange(10, 41)]
+            if v["dim"] == 2 and len(order) % 2:
+                order = order[:-1]
+            step = v["dim"]
+            for k in range(0, len(order), step):
+                hs = order[k:k + step]
+                vals = []
+                for h in hs:
+                    info = self.pinfo.get(h)
+                    if info is not None and info[0] == "u":
+                        g = [self.value_at(info[1], 1 + j) for j in range(v["nf"])]
+                        vals += [(x[0] + 1, x[1] - 1) for x in g]
+                        v["taint"] = True
+                    else:
+                        vals += [self.value_at(h, 1 + j) for j in range(v["nf"])]
+                st = self.do("addstd %d %d %s %d %s" % (i, len(hs), " ".join(map(str, hs)), len(vals),
+                                                        " ".join(vstr(x) for x in vals)))
+                if st["r"] == "0":
+                    held[i].append((hs, vals))
+        # every held handle: delete it, then use it again in the vnacal_new_t that holds it
+        for i in range(nvn):
+            items = list(held[i])
+            rng.shuffle(items)
+            for hs, vals in items:
+                for h in hs:
+                    if h >= 3 and h in self.visible() and rng.random() < 0.9:
+                        self.do("delp %d" % h)
+                        if rng.random() < 0.2:
+                            self.do("getv %d 1" % h)
+                self.do("addstd %d %d %s %d %s" % (i, len(hs), " ".join(map(str, hs)), len(vals),
+                                                   " ".join(vstr(x) for x in vals)))
+                if rng.random() < 0.1:
+                    self.made(self.do("mks " + vstr((rng.randrange(-60, 61), rng.randrange(-60, 61)))), None)
+        for i in range(nvn):
+            v = self.vn[i]
+            if v["dim"] == 1 and not v["taint"] and len(held[i]) >= 3:
+                self.do("solve %d 1" % i)
+                self.do("addcal %d c%d" % (i, i))
+            if rng.random() < 0.7:
+                self.do("nfree %d" % i)
+        self.do("free")
+
+    # -- profile "shared": unknown parameters shared by several vnacal_new_t whose frequency grids have the same or
+    #    different lengths and different start frequencies; solve in varying orders and read the solved values back at
+    #    every grid ("values returned for solved unknown parameters are those solved")
+    def generate_shared(self):
+        rng = self.rng
+        known = [(0, (0, 0)), (1, (64, 0)), (2, (-64, 0))]
+        for _ in range(rng.randrange(1, 4)):
+            while True:
+                v = (rng.randrange(-50, 51), rng.randrange(-50, 51))
+                if all(abs(v[0] - k[1][0]) + abs(v[1] - k[1][1]) > 8 for k in known):
+                    break
+            st = self.do("mks " + vstr(v))
+            self.made(st, ("s", v))
+            known.append((int(st["r"]), v))
+        unknowns = []
+        for _ in range(rng.randrange(1, 3)):
+            gh, gv = rng.choice(known[3:] or known)
+            st = self.do("mku %d" % gh)
+            self.made(st, ("u", gh))
+            unknowns.append((int(st["r"]), gv))
+        nvn = rng.randrange(2, 5)
+        grids = []
+        nf0 = rng.choice([1, 2, 3])
+        for i in range(nvn):
+            nf = nf0 if i < 2 or rng.random() < 0.5 else rng.choice([1, 2, 3])
+            while True:
+                f0 = rng.randrange(1, 7)
+                if (nf, f0) not in grids:
+                    break
+            grids.append((nf, f0))
+        meas = {}
+        for i, (nf, f0) in enumerate(grids):
+            self.do("nalloc %d %d 1 %d" % (i, rng.choice(VALID_TYPES), nf))
+            self.do("setf %d %d" % (i, f0))
+            ks = rng.sample(known, 3)
+            for h, val in ks:
+                self.do("addstd %d 1 %d %d %s" % (i, h, nf, " ".join([vstr(val)] * nf)))
+            for u, gv in unknowns:
+                if rng.random() < 0.85:
+                    while True:
+                        vals = [(gv[0] + rng.choice([-3, -2, -1, 1, 2, 3]), gv[1] + rng.choice([-3, -2, -1, 1, 2, 3]))
+                                for _ in range(nf)]
+                        if all(x != k[1] for x in vals for k in ks) and all(vals != m for m in meas.values()):
+                            break
+                    meas[(i, u)] = vals
+                    self.do("addstd %d 1 %d %d %s" % (i, u, nf, " ".join(vstr(x) for x in vals)))
+        alive = list(range(nvn))
+        for _ in range(rng.randrange(8, 20)):
+            r = rng.random()
+            if r < 0.45 and alive:
+                i = rng.choice(alive)
+                self.do("solve %d 1" % i)
+                nf, f0 = grids[i]
+                for u, _g in unknowns:
+                    for f in sorted(set([f0, f0 + nf - 1, f0 + nf, max(f0 - 1, 0)] + [rng.randrange(0, 9)])):
+                        self.do("getv %d %d" % (u, f))
+            elif r < 0.75:
+                u = rng.choice(unknowns)[0]
+                self.do("getv %d %d" % (u, rng.randrange(0, 10)))
+            elif r < 0.82 and alive:
+                i = rng.choice(alive)
+                self.do("addcal %d c%d" % (i, rng.randrange(0, 4)))
+            elif r < 0.88:
+                self.do("delp %d" % rng.choice(unknowns)[0])
+            elif r < 0.93 and len(alive) > 1:
+                i = alive.pop(rng.randrange(len(alive)))
+                self.do("nfree %d" % i)
+            else:
+                self.do("end")
+        self.do("free")
+
     def generate(self):
+        if self.profile == "bigset":
+            return self.generate_bigset()
+        if self.profile == "shared":
+            return self.generate_shared()
         w = self.PROFILES[self.profile]
         ops = [k for k in w if w[k] > 0]
         weights = [w[k] for k in ops]
@@ -741,6 +948,45 @@ def directed_scripts():
          "addstd 0 1 3 2 32 0 32 0", "solve 0 1", "addcal 0 c1", "getcal 0", "mks 9 9", "nfree 0", "mks 10 10", "mks 11 11",
          "nfree 1", "mks 12 12", "free"]
     out["deleted_while_held"] = h
+    # the per-vnacal_new_t parameter hash (8 buckets, grows to 16 at the 8th entry, 32 at the 16th, 64 at the 32nd):
+    # handles colliding modulo 8 / 16 / 32 are entered before the growth, then EVERY held handle is deleted and used
+    # again in the same vnacal_new_t, which must keep accepting it
+    def hash_scenario(order, nparams=70):
+        sc = ["mks %d %d" % (k - 30, 2 * k - 61) for k in range(nparams)]          # handles 3 .. nparams+2
+        val = lambda h: (h - 3 - 30, 2 * (h - 3) - 61)
+        sc += ["nalloc 0 0 1 1", "setf 0 1"]
+        for h in order:
+            sc.append("addstd 0 1 %d 1 %d %d" % ((h,) + val(h)))
+        for h in order:
+            sc += ["delp %d" % h, "addstd 0 1 %d 1 %d %d" % ((h,) + val(h))]
+        sc += ["solve 0 1", "addcal 0 c1", "getcal 0"]
+        for h in order[:6]:
+            sc.append("getv %d 1" % h)
+        sc += ["nfree 0", "mks 1 1", "free"]
+        return sc
+    out["hash_mod16"] = hash_scenario([3, 19, 4, 20, 5, 21, 9, 10, 11])                      # stops at 16 buckets
+    out["hash_mod32"] = hash_scenario([3, 19, 35, 7, 39, 8, 9, 10, 11, 12, 13, 14, 15, 16, 17, 18, 20, 21])  # 32 buckets
+    out["hash_mod64"] = hash_scenario([3, 67, 35, 19, 4, 36, 68] + list(range(5, 19)) + list(range(20, 34)) + [40, 41, 42])
+    out["hash_reverse"] = hash_scenario([51, 35, 19, 3, 52, 36, 20, 4, 60, 44, 28, 12])
+    # an unknown parameter shared by vnacal_new_t with grids of equal length but different frequencies, and of
+    # different lengths, solved in both orders; the solved values are read back at every grid
+    def shared_scenario(order):
+        sc = ["mks 32 0", "mku 3"]                                              # unknown = handle 4, guess 0.5
+        grids = {0: (2, 1), 1: (2, 3), 2: (3, 2), 3: (1, 7)}                    # id -> (frequencies, first frequency)
+        ms = {0: [(34, 2), (30, -2)], 1: [(35, -3), (29, 3)], 2: [(33, 1), (31, -1), (36, 4)], 3: [(28, -4)]}
+        for i, (nf, f0) in sorted(grids.items()):
+            sc += ["nalloc %d %d 1 %d" % (i, [0, 1, 6, 8][i], nf), "setf %d %d" % (i, f0)]
+            for h, vv in ((0, (0, 0)), (1, (64, 0)), (2, (-64, 0))):
+                sc.append("addstd %d 1 %d %d %s" % (i, h, nf, " ".join([vstr(vv)] * nf)))
+            sc.append("addstd %d 1 4 %d %s" % (i, nf, " ".join(vstr(x) for x in ms[i])))
+        sc.append("getv 4 1")
+        for i in order:
+            sc.append("solve %d 1" % i)
+            sc += ["getv 4 %d" % f for f in range(0, 10)]
+        sc += ["delp 4", "solve %d 1" % order[0], "addcal %d c1" % order[0], "getv 4 1", "free"]
+        return sc
+    out["shared_unknown_a"] = shared_scenario([0, 1, 0, 2, 1, 3, 2])
+    out["shared_unknown_b"] = shared_scenario([1, 0, 3, 0, 2, 1])
     out["two_port_and_unknown"] = [
         "mks 32 0", "mku 3", "nalloc 0 0 1 2", "setf 0 1", "addstd 0 1 0 2 0 0 0 0", "addstd 0 1 1 2 64 0 64 0",
         "addstd 0 1 2 2 -64 0 -64 0", "addstd 0 1 4 2 36 4 30 -4", "getv 4 1", "solve 0 1", "getv 4 1", "getv 4 2", "getv 4 3",
@@ -826,7 +1072,8 @@ def run(ctx):
             dir_bad.append(name)
             report("directed " + name, script, r)
     ctx.obligation("tie:directed scenarios (slot growth 1/8/16, delete-then-add, existing name, handle reuse, "
-                   "delete while held)", not dir_bad, "failing: " + ",".join(dir_bad))
+                   "delete while held, large colliding parameter sets, unknowns shared across grids)", not dir_bad,
+                   "failing: " + ",".join(dir_bad))
 
     # corpus
     corpus_bad = 0
@@ -843,7 +1090,7 @@ def run(ctx):
     # generated scripts
     nscripts = 60 if not thorough else 600
     depth = 60 if not thorough else 100
-    profiles = ["mixed", "params", "cals", "growth", "held"]
+    profiles = ["mixed", "params", "cals", "growth", "held", "bigset", "shared"]
     bad = 0
     opcount = {}
     cover = {"lines showing a solved unknown value": 0, "successful solves": 0, "handles deleted while held": 0,
